@@ -229,6 +229,12 @@ def run_check(prop_factory, tier):
     if bad_ax:
         print(f"INFRA: theorem(s) depend on non-standard axioms: {bad_ax}"); return 2
 
+    lc = None
+    if tier == "thorough" and os.environ.get("VERIF_NO_LEANCHECKER") != "1":
+        lc = core.leancheck(pid)
+        if not lc["ok"]:
+            print(f"INFRA: leanchecker rejected the compiled proofs of {pid}:\n{lc['output']}"); return 2
+
     nshards = prop.thorough_shards if tier == "thorough" else prop.quick_shards
     seconds = prop.thorough_seconds if tier == "thorough" else prop.quick_seconds
     seconds = float(os.environ.get("VERIF_SECONDS", seconds))
@@ -317,6 +323,7 @@ def run_check(prop_factory, tier):
         "disagreements_model_vs_impl": len(disagree), "failing_inputs": len(failing),
         "shards": nshards, "seconds_per_shard": seconds, "lake_build_s": round(bt, 2),
         "repo_head": core.repo_head(),
+        "leanchecker": ({"modules_rechecked": lc["modules"], "ok": lc["ok"], "wall_s": lc["wall_s"]} if lc else "thorough tier only"),
         "explanation": prop.title,
     }
     level = "proof" if (obligations > 0 and discharged == obligations and getattr(prop, "force_level", None) is None) else \
